@@ -753,9 +753,11 @@ func famCancel(o *corr.Out, n int) {
 	total := len(subsets) * 4
 	if n < total && !o.Thorough {
 		total = n * 2
+	} else if o.Thorough {
+		total = len(subsets) * 4 * 10 // the whole grid ten times: the handler program and the order of the calls are drawn anew
 	}
 	for it := -1; it < total; it++ {
-		gi := it
+		gi := it % (len(subsets) * 4)
 		if it >= 0 && total < len(subsets)*4 {
 			gi = r.Intn(len(subsets) * 4)
 		}
@@ -1132,7 +1134,11 @@ func famQueuedUnary(o *corr.Out) {
 // call returns, the connection must afterwards serve a probe or report itself closed.
 func famCancelAtOffer(o *corr.Out) {
 	for _, soft := range []bool{false, true} {
-		for rep := 0; rep < 6; rep++ {
+		reps := 6
+		if o.Thorough {
+			reps = 30
+		}
+		for rep := 0; rep < reps; rep++ {
 			sc := &scenario{cfg: Config{Soft: soft}, class: "cancel-at-offer"}
 			if rep%2 == 1 {
 				sc.do("inv!u1!1!r1.s1:1.x!1!7")
@@ -1158,7 +1164,11 @@ func famSelectRace(o *corr.Out) {
 	combos := [][]string{{"clo!x1!1", "can!1"}, {"can!1", "clo!x1!1"}, {"clo!x1!1", "failr!A"}, {"can!1", "failr!A"}, {"clo!x1!1", "can!1", "failr!A"}}
 	for _, soft := range []bool{false, true} {
 		for _, combo := range combos {
-			for rep := 0; rep < 4; rep++ {
+			reps := 4
+			if o.Thorough {
+				reps = 16
+			}
+			for rep := 0; rep < reps; rep++ {
 				sc := &scenario{cfg: Config{Soft: soft}, class: "select-race"}
 				sc.do("mspark")
 				sc.do("new!n1!1!rA.x!1")
